@@ -399,7 +399,9 @@ impl Chitchat {
         for key in previous_keys {
             node_state.remove_key_value_internal(&key);
         }
-        node_state.set_last_gc_version(last_gc_version);
+        // Never lower the GC watermark, and record the max version we were caught up to.
+        node_state.set_last_gc_version(last_gc_version.max(node_state.last_gc_version()));
+        node_state.set_max_version(max_version.max(node_state.max_version()));
 
         let monotonic_property_after = node_state.monotonic_property();
 
